@@ -42,7 +42,10 @@ const (
 var mode = Det
 
 func SetMode(m Mode) { mode = m }
-func GetMode() Mode  { return mode }
+
+// IsFree reports whether goroutines run freely (race binary) instead of under the scheduler.
+func IsFree() bool  { return mode == Free }
+func GetMode() Mode { return mode }
 
 // ---------------------------------------------------------------------------------------------
 // Environment of the node whose code is running.
